@@ -9,6 +9,12 @@
 //!   re <rf> <layout> <seq>                               ReadEvent (the id of the event at <seq>; unknown id if beyond the log) -> seq | none
 //!   sv <rf> <layout> <stream>                            GetStreamVersion   -> ver | none
 //!   ps <rf> <layout>                                     GetPartitionSequence -> seq | none
+//!   lv <rf> <layout> <deliveries|-> <rp|rs|re|sv|ps> <args as above without rf/layout>
+//!        the watermark is built LIVE: the node is started on <layout>, then ConfirmTransaction messages
+//!        `<txn index>:<count>,..` are delivered to the running ClusterActor in that order (the path a
+//!        coordinator's confirmation takes on a replica: on-disk count, then the report to the
+//!        ConfirmationActor); after the last one has settled the read is asked.  Lines whose delivery list
+//!        extends that of an earlier line with the same layout continue on the same partition.
 //! Only one ClusterActor can live in a process and its replication factor is fixed, so the parent process
 //! re-executes itself once per replication factor (`child`); inside a child up to 48 layouts share one
 //! database (one partition each) and further databases are swapped in with the ResetCluster message.
@@ -19,6 +25,7 @@ use sierradb::StreamId;
 use sierradb::database::{Database, DatabaseBuilder, NewEvent, Transaction};
 use sierradb::id::{uuid_to_partition_hash, uuid_v7_with_partition_hash};
 use sierradb_cluster::read::{GetPartitionSequence, GetStreamVersion, ReadEvent, ReadPartition, ReadStream};
+use sierradb_cluster::write::confirm::ConfirmTransaction;
 use sierradb_cluster::{ClusterActor, ClusterArgs, ResetCluster};
 use sierradb_protocol::ExpectedVersion;
 use std::collections::{BTreeMap, HashMap, HashSet};
@@ -51,13 +58,15 @@ fn key_for(p: u16) -> Uuid {
 }
 fn stream_name(p: u16, d: u8) -> StreamId { StreamId::new(format!("p{p}s{d}")).unwrap() }
 
-struct Loaded { ids: Vec<Uuid> }
+struct TxInfo { txid: Uuid, ids: Vec<Uuid>, first: u64, counts: Vec<u8> }
+struct Loaded { ids: Vec<Uuid>, txs: Vec<TxInfo> }
 
 async fn populate(db: &Database, p: u16, layout: &[Txn]) -> Result<Loaded, String> {
     let key = key_for(p);
     let hash = uuid_to_partition_hash(key);
     if hash % PARTITIONS != p { return Err(format!("key for partition {p} hashes to {}", hash % PARTITIONS)); }
     let mut ids = Vec::new();
+    let mut txs = Vec::new();
     let mut next = 0u64;
     for t in layout {
         let evs: smallvec::SmallVec<[NewEvent; 4]> = t.streams.iter().map(|&d| NewEvent {
@@ -67,6 +76,7 @@ async fn populate(db: &Database, p: u16, layout: &[Txn]) -> Result<Loaded, Strin
             event_name: "e".into(), timestamp: 1, metadata: vec![], payload: vec![7; 5],
         }).collect();
         for e in &evs { ids.push(e.event_id); }
+        let tx_ids: Vec<Uuid> = evs.iter().map(|e| e.event_id).collect();
         let tx = Transaction::new(key, p, evs).map_err(|e| format!("tx: {e}"))?.with_confirmation_count(t.counts[0]);
         let txid = tx.transaction_id();
         let r = db.append_events(tx).await.map_err(|e| format!("append: {e}"))?;
@@ -77,13 +87,15 @@ async fn populate(db: &Database, p: u16, layout: &[Txn]) -> Result<Loaded, Strin
                 db.set_confirmations(p, smallvec::smallvec![off], txid, c).await.map_err(|e| format!("set_confirmations: {e}"))?;
             }
         }
+        txs.push(TxInfo { txid, ids: tx_ids, first: next, counts: t.counts.clone() });
         next += t.streams.len() as u64;
     }
-    Ok(Loaded { ids })
+    Ok(Loaded { ids, txs })
 }
 
 fn opt(s: &str) -> Option<Option<u64>> { if s == "-" { Some(None) } else { s.parse().ok().map(Some) } }
 
+/// `t` = [kind, _, _, args..] (positions 1 and 2 are the replication factor and the layout)
 async fn query(cluster: &ActorRef<ClusterActor>, p: u16, ld: &Loaded, t: &[&str]) -> String {
     let short = |e: String| { let e = e.replace(['\n', '\t'], " "); format!("ERR {}", &e[..e.len().min(120)]) };
     match t[0] {
@@ -128,26 +140,82 @@ async fn query(cluster: &ActorRef<ClusterActor>, p: u16, ld: &Loaded, t: &[&str]
     }
 }
 
+fn parse_deliveries(s: &str) -> Option<Vec<(usize, u8)>> {
+    if s == "-" { return Some(vec![]); }
+    s.split(',').map(|t| { let (a, b) = t.split_once(':')?; Some((a.parse().ok()?, b.parse().ok()?)) }).collect()
+}
+
+/// one partition of one database: a start-up layout (static) or a live scenario (mutated by deliveries)
+struct Slot { layout: String, live: bool, deliveries: Vec<(usize, u8)>, applied: usize, loaded: Option<Loaded> }
+
+/// the longest quorum prefix of the best count known per event (on disk at start-up or delivered so far)
+fn expected_watermark(rf: u8, ld: &Loaded, delivered: &[(usize, u8)]) -> u64 {
+    let q = rf / 2 + 1;
+    let mut best: Vec<u8> = ld.txs.iter().flat_map(|t| t.counts.clone()).collect();
+    for &(t, c) in delivered {
+        if let Some(tx) = ld.txs.get(t) { for k in 0..tx.ids.len() { let i = tx.first as usize + k; best[i] = best[i].max(c); } }
+    }
+    best.iter().take_while(|&&c| c >= q).count() as u64
+}
+
+/// deliver one ConfirmTransaction to the running node and wait until the watermark has settled
+async fn deliver(cluster: &ActorRef<ClusterActor>, rf: u8, p: u16, ld: &Loaded, all: &[(usize, u8)], upto: usize) -> Result<(), String> {
+    let (t, c) = all[upto];
+    let Some(tx) = ld.txs.get(t) else { return Err(format!("no transaction {t}")) };
+    let msg = ConfirmTransaction {
+        partition_id: p, transaction_id: tx.txid,
+        event_ids: tx.ids.iter().copied().collect(),
+        confirmation_versions: (0..tx.ids.len() as u64).map(|k| tx.first + k + 1).collect(),
+        confirmation_count: c,
+    };
+    cluster.ask(msg).await.map_err(|e| format!("ConfirmTransaction: {e}"))?;
+    // quiescence: the handler only *tells* the ConfirmationActor; poll the published watermark until it has the
+    // value the reports delivered so far imply (seen twice), or, failing that, until it stopped moving
+    let want = expected_watermark(rf, ld, &all[..=upto]).checked_sub(1);
+    let t0 = std::time::Instant::now();
+    let (mut last, mut same) = (None, 0u32);
+    loop {
+        let cur = cluster.ask(GetPartitionSequence { partition_id: p }).await.map_err(|e| format!("poll: {e}"))?;
+        if Some(cur) == last { same += 1; } else { same = 0; last = Some(cur); }
+        if cur == want && same >= 1 { return Ok(()); }
+        if t0.elapsed() > Duration::from_millis(2500) && same >= 10 { return Ok(()); }
+        if t0.elapsed() > Duration::from_secs(20) { return Ok(()); }
+        tokio::time::sleep(Duration::from_millis(if cur == want { 3 } else { 25 })).await;
+    }
+}
+
 async fn child_run(rf: u8, lines: Vec<String>) -> Result<Vec<(String, String)>, String> {
     let mut out = Vec::new();
-    // distinct layouts in order of first appearance
-    let mut order: Vec<String> = Vec::new();
-    let mut seen = HashSet::new();
+    // assign every line to a slot
+    let mut slots: Vec<Slot> = Vec::new();
+    let mut static_slot: HashMap<String, usize> = HashMap::new();
+    let mut plan: Vec<Option<(usize, usize)>> = Vec::new(); // per line: (slot, number of deliveries that must have been applied)
     for l in &lines {
         let t: Vec<&str> = l.split_whitespace().collect();
-        if t.len() >= 3 && seen.insert(t[2].to_string()) { order.push(t[2].to_string()); }
+        if t.len() < 3 || parse_layout(t[2]).is_none() { plan.push(None); continue; }
+        if t[0] == "lv" {
+            let Some(d) = (if t.len() >= 5 { parse_deliveries(t[3]) } else { None }) else { plan.push(None); continue };
+            let found = slots.iter().rposition(|s| s.live && s.layout == t[2] && s.deliveries.len() <= d.len() && d[..s.deliveries.len()] == s.deliveries[..]);
+            let k = match found { Some(k) => { slots[k].deliveries = d.clone(); k }
+                                  None => { slots.push(Slot { layout: t[2].into(), live: true, deliveries: d.clone(), applied: 0, loaded: None }); slots.len() - 1 } };
+            plan.push(Some((k, d.len())));
+        } else {
+            let k = *static_slot.entry(t[2].to_string()).or_insert_with(|| { slots.push(Slot { layout: t[2].into(), live: false, deliveries: vec![], applied: 0, loaded: None }); slots.len() - 1 });
+            plan.push(Some((k, 0)));
+        }
     }
+    for (l, pl) in lines.iter().zip(&plan) { if pl.is_none() { out.push((l.clone(), "BADCASE".to_string())); } }
     let mut cluster: Option<ActorRef<ClusterActor>> = None;
     let mut dirs = Vec::new();
-    for chunk in order.chunks(PER_DB) {
+    let nslots = slots.len();
+    for base in (0..nslots).step_by(PER_DB) {
+        let end = (base + PER_DB).min(nslots);
         let dir = tempfile::tempdir().map_err(|e| e.to_string())?;
         let db = DatabaseBuilder::new().segment_size_bytes(1024 * 1024).total_buckets(4).bucket_ids_from_range(0..4)
             .open(dir.path()).map_err(|e| format!("open: {e}"))?;
-        let mut loaded: HashMap<String, (u16, Loaded)> = HashMap::new();
-        for (i, l) in chunk.iter().enumerate() {
-            let Some(layout) = parse_layout(l) else { continue };
-            let ld = populate(&db, i as u16, &layout).await?;
-            loaded.insert(l.clone(), (i as u16, ld));
+        for k in base..end {
+            let layout = parse_layout(&slots[k].layout).unwrap();
+            slots[k].loaded = Some(populate(&db, (k - base) as u16, &layout).await?);
         }
         match &cluster {
             None => {
@@ -165,13 +233,31 @@ async fn child_run(rf: u8, lines: Vec<String>) -> Result<Vec<(String, String)>, 
             Some(c) => { c.ask(ResetCluster { database: db.clone() }).await.map_err(|e| format!("reset: {e}"))?; }
         }
         let c = cluster.as_ref().unwrap();
-        for l in &lines {
+        for (l, pl) in lines.iter().zip(&plan) {
+            let Some((k, need)) = *pl else { continue };
+            if k < base || k >= end { continue; }
+            let p = (k - base) as u16;
             let t: Vec<&str> = l.split_whitespace().collect();
-            if t.len() < 3 { continue; }
-            let Some((p, ld)) = loaded.get(t[2]) else { continue };
-            let o = match tokio::time::timeout(Duration::from_secs(30), query(c, *p, ld, &t)).await {
-                Ok(o) => o,
-                Err(_) => "TIMEOUT".to_string(),
+            let mut failed: Option<String> = None;
+            if slots[k].live {
+                if slots[k].applied > need { failed = Some("ERR deliveries out of order".into()); }
+                while failed.is_none() && slots[k].applied < need {
+                    let upto = slots[k].applied;
+                    let sl = &slots[k];
+                    match deliver(c, rf, p, sl.loaded.as_ref().unwrap(), &sl.deliveries, upto).await {
+                        Ok(()) => { slots[k].applied += 1; }
+                        Err(e) => { let e = e.replace(['\n', '\t'], " "); failed = Some(format!("ERR {}", &e[..e.len().min(120)])); }
+                    }
+                }
+            }
+            let o = match failed {
+                Some(e) => e,
+                None => {
+                    let ld = slots[k].loaded.as_ref().unwrap();
+                    // a live line carries the read behind the delivery list: [lv rf layout D kind args..] -> [kind rf layout args..]
+                    let tt: Vec<&str> = if slots[k].live { let mut v = vec![t[4], t[1], t[2]]; v.extend_from_slice(&t[5..]); v } else { t.clone() };
+                    match tokio::time::timeout(Duration::from_secs(30), query(c, p, ld, &tt)).await { Ok(o) => o, Err(_) => "TIMEOUT".to_string() }
+                }
             };
             out.push((l.clone(), o));
         }
@@ -282,6 +368,82 @@ fn gen_queries(rng: &mut Rng, rf: u8, l: &str, dense: bool, v: &mut Vec<String>)
     }
 }
 
+fn shuffle<T>(rng: &mut Rng, v: &mut Vec<T>) {
+    for i in (1..v.len()).rev() { let j = rng.below(i as u64 + 1) as usize; v.swap(i, j); }
+}
+
+/// a live scenario: a log of (mostly) unconfirmed events, and confirmations delivered to the running node late,
+/// out of order and duplicated, with some transactions never reaching quorum and confirmed ones behind them;
+/// after every delivery all five reads
+fn gen_live(rng: &mut Rng, rf: u8, long: bool, dense: bool, v: &mut Vec<String>) {
+    let q = rf / 2 + 1;
+    let top = rf.max(q).min(12);
+    let ntx = if long { rng.range(52, 60) } else { rng.range(2, 8) } as usize;
+    let nstreams = rng.range(1, 3) as u8;
+    let pre = if rng.chance(1, 3) { rng.below(ntx as u64 / 2 + 1) as usize } else { 0 }; // confirmed on disk before the node starts
+    let mut txs: Vec<String> = Vec::new();
+    let mut sizes: Vec<usize> = Vec::new();
+    for i in 0..ntx {
+        let k = if rng.chance(2, 5) { rng.range(2, 4) as usize } else { 1 };
+        let streams: String = (0..k).map(|_| (b'0' + rng.below(nstreams as u64) as u8) as char).collect();
+        let c0 = if i < pre { rng.range(q as u64, top as u64) as u8 } else if rng.chance(1, 8) { rng.below(q as u64) as u8 } else { 0 };
+        txs.push(format!("{c0}:{streams}"));
+        sizes.push(k);
+    }
+    let l = txs.join(",");
+    // what is delivered for each transaction
+    let mut ds: Vec<(usize, u8)> = Vec::new();
+    for t in 0..ntx {
+        match rng.below(10) {
+            0 | 1 => {}                                                                   // the write failed quorum: never confirmed
+            2 => { if q > 1 { ds.push((t, rng.range(0, q as u64 - 1) as u8)); } }         // only ever a sub-quorum count
+            3 => { let c = rng.range(q as u64, top as u64) as u8; ds.push((t, c)); ds.push((t, c)); }   // duplicate
+            4 => { ds.push((t, top)); ds.push((t, q)); }                                  // a later, higher count may arrive first
+            5 => { ds.push((t, rng.range(q as u64, top as u64) as u8)); if q > 1 { ds.push((t, rng.below(q as u64) as u8)); } } // stale lower count
+            _ => { ds.push((t, rng.range(q as u64, top as u64) as u8)); }
+        }
+    }
+    match rng.below(4) { 0 => {}, 1 => ds.reverse(), _ => shuffle(rng, &mut ds) }
+    let maxd = if long { 6 } else if dense { 14 } else { 9 };
+    if long {
+        // confirm a long run in one go first so that more than one batch of 50 commits lies below the watermark
+        let head: Vec<(usize, u8)> = (0..ntx.min(54)).map(|t| (t, q)).collect();
+        ds.truncate(maxd);
+        let mut all = head.clone(); all.extend(ds.iter().copied());
+        emit_live(rng, rf, &l, &sizes, &all, head.len(), v);
+        return;
+    }
+    ds.truncate(maxd);
+    emit_live(rng, rf, &l, &sizes, &ds, 0, v);
+}
+
+/// reads after the first `from` deliveries and after every further one
+fn emit_live(rng: &mut Rng, rf: u8, l: &str, sizes: &[usize], ds: &[(usize, u8)], from: usize, v: &mut Vec<String>) {
+    let n: u64 = sizes.iter().sum::<usize>() as u64;
+    let q = rf / 2 + 1;
+    let init: Vec<u8> = parse_layout(l).map(|t| t.iter().flat_map(|x| x.counts.clone()).collect()).unwrap_or_default();
+    let firsts: Vec<usize> = sizes.iter().scan(0usize, |a, &k| { let f = *a; *a += k; Some(f) }).collect();
+    for upto in from..=ds.len() {
+        let d: String = if upto == 0 { "-".into() } else { ds[..upto].iter().map(|(t, c)| format!("{t}:{c}")).collect::<Vec<_>>().join(",") };
+        let mut best = init.clone();
+        for &(t, c) in &ds[..upto] { for k in 0..sizes[t] { let i = firsts[t] + k; best[i] = best[i].max(c); } }
+        let w = best.iter().take_while(|&&c| c >= q).count() as u64;
+        let pre = format!("lv {rf} {l} {d}");
+        v.push(format!("{pre} ps"));
+        for x in 0..3 { v.push(format!("{pre} sv {x}")); }
+        let res: Vec<u64> = if n <= 9 { (0..=n).collect() } else { let mut r: Vec<u64> = vec![w.saturating_sub(1), w, (w + 1).min(n), n]; for _ in 0..4 { r.push(rng.below(n + 1)); } r };
+        for s in res { v.push(format!("{pre} re {s}")); }
+        v.push(format!("{pre} rp 0 - 1000"));
+        v.push(format!("{pre} rp {} - {}", rng.below(w + 1), u64::MAX));
+        v.push(format!("{pre} rp {} {} {}", rng.below(w + 2), rng.below(n + 2), rng.range(1, n + 1)));
+        v.push(format!("{pre} rp {w} - 5"));
+        v.push(format!("{pre} rp {} {} 1000", w.saturating_sub(1), w));
+        for x in 0..3u64 { v.push(format!("{pre} rs {x} 0 - 1000")); }
+        v.push(format!("{pre} rs {} {} {} {}", rng.below(3), rng.below(3), rng.below(n + 1), rng.range(1, n + 1)));
+        v.push(format!("{pre} rs {} {} - {}", rng.below(3), rng.below(n + 1), rng.range(0, 3)));
+    }
+}
+
 pub fn run(a: &Args, out: &mut Out) {
     if a.tier == "child" { return child(a, out); }
     if a.tier == "cases" {
@@ -299,6 +461,9 @@ pub fn run(a: &Args, out: &mut Out) {
             let l = gen_layout(&mut rng, rf, big);
             gen_queries(&mut rng, rf, &l, thorough, &mut lines);
         }
+        // the watermark built live on the running node
+        let ns = if thorough { 40 } else { 8 };
+        for i in 0..ns { gen_live(&mut rng, rf, i % 8 == 7, thorough, &mut lines); }
         // the probe of the design: rf 3, counts [2,2],2,0,2
         if rf == 3 { let l = "2:00,2:0,0:1,2:0".to_string(); gen_queries(&mut rng, rf, &l, true, &mut lines); }
     }
